@@ -6,6 +6,7 @@ import (
 	"io"
 	"net"
 	"net/http"
+	"time"
 
 	"github.com/fatedier/frp/verif"
 )
@@ -59,4 +60,20 @@ func verif_readHTTPConnectRequest(muxer *HTTPConnectTCPMuxer, rd io.Reader) {
 		verif.Ensures(verif.RetErr(evRead, 1) == nil && req.Method == "CONNECT", "only_connect_requests")
 		verif.Ensures(verif.CallCount(evCanon) == 1 && verif.CalledWith(evCanon, 0, req.Host) && host == verif.RetStr(evCanon, 0), "route_host_is_the_canonical_form_of_the_target")
 	}
+}
+
+// NewHTTPConnectTCPMuxer (C07 "CONNECT on the tcpmux port ... only with the
+// route's credentials"): the muxer runs this type's credential check in every
+// mode - passthrough only decides whether the CONNECT request is replayed to the
+// backend, never whether the route's credentials are checked - and the success
+// and failure answers are this type's own.
+//
+//verif:contract ~/pkg/util/tcpmux.NewHTTPConnectTCPMuxer
+//verif:props C07
+//verif:kinds post
+func verif_NewHTTPConnectTCPMuxer(listener net.Listener, passthrough bool, timeout time.Duration) {
+	verif.ResetEvents()
+	ret, _ := NewHTTPConnectTCPMuxer(listener, passthrough, timeout)
+	verif.Ensures(ret != nil && ret.passthrough == passthrough, "mode_as_requested")
+	verif.Ensures(verif.CallCount("Muxer).SetCheckAuthFunc") == 1 && verif.HandlerName(verif.NthArg[any]("Muxer).SetCheckAuthFunc", 0, 1)) == "auth", "credential_check_installed_in_every_mode")
 }
